@@ -1184,6 +1184,11 @@ func runC17(c *Ctx) {
 		if c.Mine(job) && mi == 0 {
 			c17RepeatedFailures(c, maxv)
 		}
+		// ------------------------------------------------------------ phase G: client versions the backend refuses
+		job++
+		if c.Mine(job) && mi == len(maxvs)-1 {
+			c17BackendRefusesVersion(c, maxv)
+		}
 		// ------------------------------------------------------------ phase F: a client that asks for a lot and reads nothing
 		job++
 		if c.Mine(job) && mi == 0 {
@@ -1657,6 +1662,77 @@ func c17NeverReadsBigAnswers(c *Ctx, maxv string) {
 	r.Obs("canary_rounds_ok", 1)
 	if why := p.canary(); why != "" {
 		c17Crash(r, p, "client-input/never-reads-large-answers/afterwards", []string{"the same client, gone"}, why)
+		return
+	}
+	r.Obs("canary_rounds_ok", 1)
+}
+
+// c17BackendRefusesVersion: the proxy accepts protocol versions (maximum DSEv2 / v5) that its backend, a cluster of an older
+// release, refuses for new connections. A client that speaks such a version gets errors for its requests - every time it
+// asks, with and without compression, also after a failed USE - and the proxy goes on serving everybody else.
+func c17BackendRefusesVersion(c *Ctx, maxv string) {
+	r := c.R
+	c.Step("c17 client versions the backend refuses maxv=%s", maxv)
+	p, err := c17Start(c, maxv, "oldbackend")
+	if err != nil {
+		r.Inconc("c17: " + err.Error())
+		return
+	}
+	defer p.stop()
+	for _, h := range p.cluster.Hosts {
+		atomic.StoreInt32(&h.MaxVersion, 4)
+	}
+	if why := p.canary(); why != "" {
+		r.Inconc("c17: canary fails before the phase: " + why)
+		return
+	}
+	vers := []primitive.ProtocolVersion{primitive.ProtocolVersion5, primitive.ProtocolVersionDse1, primitive.ProtocolVersionDse2}
+	if maxv == "v5" {
+		vers = vers[:1]
+	} else if maxv == "v4" || maxv == "v3" {
+		vers = nil
+	}
+	var suspects []string
+	sent := 0
+	for _, v := range vers {
+		for _, comp := range []string{"", "lz4", "snappy"} {
+			if v == primitive.ProtocolVersion5 && comp == "snappy" {
+				continue
+			}
+			cl, err := rawcql.Dial(p.addr, v, nil)
+			if err != nil {
+				continue
+			}
+			if cl.Handshake(comp, 5*time.Second) == nil {
+				for k := 0; k < 4; k++ {
+					var f *frame.Frame
+					switch k {
+					case 2:
+						f = frame.NewFrame(v, int16(k+1), &message.Query{Query: "USE ks1", Options: &message.QueryOptions{Consistency: primitive.ConsistencyLevelOne}})
+					default:
+						f = BuildRequest(v, int16(k+1), []ReqKind{KQuery, KBatch, KQuery, KQuery}[k], true, NewTok(), primitive.ConsistencyLevelOne)
+					}
+					suspects = append(suspects, fmt.Sprintf("backend-refuses-version/%s/%s/request-%d", c13VerName(v), comp, k))
+					if _, err := cl.CallF(f, 10*time.Second); err != nil {
+						break
+					}
+					sent++
+					r.Eval(1)
+				}
+			}
+			cl.Close()
+			r.NonTrivial(fmt.Sprintf("backend-refuses-version/%s/%s", c13VerName(v), comp))
+			if !p.alive() {
+				break
+			}
+		}
+	}
+	r.Obs("requests_in_versions_the_backend_refuses", sent)
+	if why := p.canary(); why != "" {
+		if len(suspects) > 8 {
+			suspects = suspects[len(suspects)-8:]
+		}
+		c17Crash(r, p, "client-input/version-the-backend-refuses", suspects, why)
 		return
 	}
 	r.Obs("canary_rounds_ok", 1)
